@@ -71,7 +71,11 @@ def text(r, lo=0, hi=12, alphabet=TEXT):
 def ident(r, lo=1, hi=10):
     s = randword(r, IDCH, r.randint(lo, hi))
     if r.random() < 0.04:          # white-space free, but with a character that means something elsewhere in the file
-        s = r.choice([">", ">", "%", ",", "=", ";", "."]) + s
+        # incl. the sentinels a percent-escaping repair of C14-hash-seqid would write: they are ordinary seqids and must come back verbatim
+        s = r.choice([">", ">", "%", ",", "=", ";", ".", "%23", "%23", "%25", "%3E", "%2523", "%"]) + s
+    elif r.random() < 0.02:
+        cut = r.randint(0, len(s))
+        s = s[:cut] + r.choice(["%23", "%25", "%3E", "%"]) + s[cut:]
     return s
 
 
@@ -270,6 +274,11 @@ def cases(seed, tier):
     yield base + ["1", "##x", "poly", "gene", "0", "4", ".", "+", ".", "1", "ID", "a"]
     yield base + ["2", "chr1", "poly", "gene", "0", "4", ".", "+", ".", "1", "ID", "a", "#x", "poly", "gene", "2", "9", ".", "-", ".", "1", "ID", "b"]
     yield ["build", "chr1", "3", "1", "10", "#locus", "", "", "ACGTACGTAC", "1", "", "poly", "gene", "0", "4", ".", "+", ".", "1", "ID", "a"]
+    # seqids / locus names that look like percent-escapes (ordinary text for poly: must round-trip verbatim)
+    yield base + ["3", "%23x", "poly", "gene", "0", "4", ".", "+", ".", "1", "ID", "a", "%25", "poly", "gene", "1", "5", ".", "+", ".", "1", "ID", "b",
+                  "a%23b%3Ec", "poly", "gene", "2", "6", ".", "-", ".", "1", "ID", "c"]
+    yield ["build", "%23chr", "3", "1", "10", "%23locus", "", "", "ACGTACGTAC", "2", "", "poly", "gene", "0", "4", ".", "+", ".", "1", "ID", "a",
+           "%3Ex", "poly", "CDS", "4", "10", ".", "-", "0", "1", "ID", "b"]
     # seqids that begin with '>' (in domain: before ##FASTA such a line is a feature line)
     yield base + ["2", ">x", "poly", "gene", "0", "4", ".", "+", ".", "1", "ID", "a", ">", "poly", "CDS", "9", "10", ".", "-", "0", "1", "ID", "b"]
     yield ["build", ">chr1", "3", "1", "10", "", "", "", "ACGTACGTAC", "1", ">chr1", "poly", "gene", "0", "10", ".", "+", ".", "1", "ID", "a"]
